@@ -74,6 +74,10 @@ impl PixelDataReader for JpegAdapter {
                 .with_whatever_context(|_| format!("JPEG decoding failure on frame {i}"))?;
 
             let decoded_len = decoded.len();
+            if dst_offset + decoded_len > dst.len() {
+                // the JPEG stream holds more samples than the image attributes describe
+                whatever!("JPEG frame {i} is larger than the image frame");
+            }
             dst[dst_offset..(dst_offset + decoded_len)].copy_from_slice(&decoded);
             dst_offset += decoded_len;
 
@@ -225,6 +229,10 @@ impl PixelDataReader for JpegAdapter {
             .whatever_context("JPEG decoder failure")?;
 
         let decoded_len = decoded.len();
+        if dst_offset + decoded_len > dst.len() {
+            // the JPEG stream holds more samples than the image attributes describe
+            whatever!("JPEG frame {frame} is larger than the image frame");
+        }
         dst[dst_offset..(dst_offset + decoded_len)].copy_from_slice(&decoded);
 
         Ok(())
